@@ -1,6 +1,9 @@
 package main
 
-import "fmt"
+import (
+	"fmt"
+	"strings"
+)
 
 // Contract-language access to maps: mapdom(m, k), mapval(m, k), visited(k) (the visited set of the map iteration of the
 // current loop).
@@ -25,6 +28,25 @@ func (e *Engine) mapBuiltin(env *Env, x *Expr) (Val, bool) {
 			unsupported("pack(x)")
 		}
 		return e.packVal(env.st, e.evalExpr(env, x.Args[0])), true
+	case "seqbytes":
+		// element i of an opaque sequence of byte slices ([][]byte)
+		e.C.DeclareFun("seq_bytes", []Sort{"Obj", BV(64)}, SBytes)
+		s := e.coerceTo(env, e.evalExpr(env, x.Args[0]), "Obj")
+		i := e.coerceTo(env, e.evalExpr(env, x.Args[1]), BV(64))
+		return mk(SBytes, fmt.Sprintf("(seq_bytes %s %s)", s.T, i.T)), true
+	case "card":
+		// the cardinality of a finite set given as (Array K Bool): what len() of a map with that domain returns
+		s, ok := e.evalExpr(env, x.Args[0]).(*Term)
+		if !ok || !strings.HasPrefix(string(s.S), "(Array ") {
+			unsupported("card(set)")
+		}
+		name := "map_card_" + sanitize(string(s.S))
+		e.C.DeclareFun(name, []Sort{s.S}, BV(64))
+		return mkBV(64, "("+name+" "+s.T+")", true), true
+	case "emptyset":
+		// emptyset(sortname): the empty set of that element sort
+		ds := Sort(fmt.Sprintf("(Array %s Bool)", e.sortByName(x.Args[0].String())))
+		return mk(ds, fmt.Sprintf("((as const %s) false)", ds)), true
 	case "domset", "valmap":
 		// the domain of a map as a set (Array K Bool) / its values as (Array K V)
 		m, ok := e.evalExpr(env, x.Args[0]).(*MapV)
